@@ -33,6 +33,10 @@ var c06Sources = []string{
 	"a ${x",
 	"( a",
 	"a &&",
+	"a && ; # c",
+	"a ; ; # c\nb",
+	"a ) # c",
+	"a # c\nb",
 }
 
 func c06Parse(src []rune, preempt int) {
